@@ -406,6 +406,21 @@ func ReadAllTimestampsForBlock(blkNums map[uint16]struct{}, segKey string,
 		return allBlocks[i] < allBlocks[j]
 	})
 
+	// The block metadata comes from the block summary file, which carries no
+	// checksum; make sure every requested block is known and has an entry for
+	// the timestamp column before indexing into it below.
+	for _, blkNum := range allBlocks {
+		bmh, ok := allBmi.AllBmh[blkNum]
+		if !ok || bmh == nil || int(blkNum) >= len(blockSummaries) {
+			log.Errorf("ReadAllTimestampsForBlock: no block metadata for block %v; segKey=%v", blkNum, segKey)
+			return nil, ErrBlockNotFound
+		}
+		if cnameIdx >= len(bmh.ColBlockOffAndLen) {
+			log.Errorf("ReadAllTimestampsForBlock: block %v has no entry for the timestamp column; segKey=%v", blkNum, segKey)
+			return nil, ErrTimestampKeyNotFound
+		}
+	}
+
 	retVal := make(map[uint16][]uint64)
 	var retLock sync.Mutex
 	allReadJob := make(chan *timeBlockRequest)
